@@ -37,6 +37,7 @@ type Scenario struct {
 	Deps  [][]int `json:"deps"`  // Deps[i] = nodes i requests, in request order
 	Kind  []int   `json:"kind"`  // per node: ok / fail / unknown
 	Split []bool  `json:"split"` // node requests its dependencies in two EvaluateTargets calls
+	Dup   []bool  `json:"dup,omitempty"` // node names its first dependency twice in one request
 	L     int     `json:"limit"`
 	Name  string  `json:"name"`
 	// Continue: a target keeps requesting its remaining dependency groups after a failed one
@@ -51,6 +52,9 @@ func (sc *Scenario) String() string {
 		sp := ""
 		if sc.Split[i] {
 			sp = "/split"
+		}
+		if len(sc.Dup) > i && sc.Dup[i] {
+			sp += "/dup"
 		}
 		fmt.Fprintf(&b, "%d%s%s->%v ", i, k, sp, sc.Deps[i])
 	}
@@ -204,6 +208,11 @@ func (t *tgt) Evaluate(e runner.Engine) error {
 	} else if len(deps) > 0 {
 		groups = [][]int{deps}
 	}
+	if len(w.sc.Dup) > i && w.sc.Dup[i] && len(groups) > 0 {
+		// the same dependency named twice in one request (two spellings of one label, a list built by a loop)
+		last := len(groups) - 1
+		groups[last] = append(append([]int{}, groups[last]...), groups[last][0])
+	}
 	var depErr error
 	for _, g := range groups {
 		labels := make([]string, len(g))
@@ -339,6 +348,11 @@ func verdicts(prop string, sc *Scenario, o *execOut) []string {
 			}
 			if w.loadCalls[0] != 1 {
 				bad = append(bad, "root-not-loaded|requested target not loaded exactly once")
+			}
+			if !cyc && w.cyclicErr != 0 {
+				// the outcome handed over must be the dependency's actual outcome: in an acyclic
+				// graph nobody's outcome is a dependency cycle
+				bad = append(bad, "wrong-outcome|a target was handed a CyclicDependencyError for a dependency in an acyclic graph")
 			}
 		}
 	case "C05":
@@ -517,6 +531,23 @@ func scenarios(prop string, thorough bool) []job {
 						add(sc, bound, true)
 						if thorough && n <= 3 {
 							add(mk(deps, kind, nil, L), -1, true)
+						}
+					}
+				}
+				// a dependency named twice in one request (2- and 3-node graphs; 4-node in thorough)
+				if n == 2 || n == 3 || (n == 4 && thorough) {
+					for i := 0; i < n; i++ {
+						if len(deps[i]) >= 1 {
+							for _, L := range limits {
+								b := 2
+								if thorough {
+									b = 3
+								}
+								sc := mk(deps, nil, nil, L)
+								sc.Dup = make([]bool, n)
+								sc.Dup[i] = true
+								add(sc, b, true)
+							}
 						}
 					}
 				}
